@@ -30,7 +30,7 @@ func Checks() map[string]*simcore.Check {
 				Stub: []string{"disk: simdisk.SimKV", "wrapper contract that nests the message under N call frames (harness-made bytecode)"},
 			},
 			Perturbed: []string{"goroutine interleaving of 2-8 EVMs sharing caches and sync.Pools (GOMAXPROCS 1/2/4/8/16 per run; checks.json gomaxprocs for the process start value)", "sync.Pool reuse pattern"},
-			Runs:      map[string]int{"quick": 1000, "thorough": 50000},
+			Runs:      map[string]int{"quick": 1200, "thorough": 50000},
 			Gen:       gen28, Decode: decode28, Run: run28, Shrink: shrink28,
 			ProbeNames: []string{"flavor-0", "flavor-1", "flavor-2", "depth>100", "unwritten-memory-probes", "concurrent-executions", "ref-ok", "ref-failed"},
 		},
@@ -41,6 +41,7 @@ func Checks() map[string]*simcore.Check {
 				"blocks come from core.GenerateChain; the importing chain's own full-state validation accepted the block before the witness is used",
 				"the witness content may depend on the trie prefetcher's schedule (not decided); every oracle clause holds for any content",
 				"a panic of ExecuteStateless on an incomplete witness counts as failing (the property only forbids success with different roots); it is counted, not reported",
+				"removal of an ancestor header is executed but not judged (headers are not trie nodes): a different result is only counted (probe header-removed-different-result)",
 				"the parent header is never removed: it carries the pre-state root and its absence is a malformed witness, not a missing element",
 			},
 			Components: simcore.Components{
@@ -48,7 +49,7 @@ func Checks() map[string]*simcore.Check {
 				Stub: []string{"disk of the importing chain: simdisk.SimKV", "the witness with one element removed (the stateless side's missing-data fault)"},
 			},
 			Perturbed: []string{"trie prefetcher / subfetcher interleaving while the witness is collected (GOMAXPROCS from checks.json)"},
-			Runs:      map[string]int{"quick": 480, "thorough": 20000},
+			Runs:      map[string]int{"quick": 1200, "thorough": 20000},
 			Gen:       gen34, Decode: decode34, Run: run34, Shrink: shrink34,
 			ProbeNames: []string{"witness-with-ancestor-headers", "fault-outcome-error", "fault-outcome-same-roots"},
 		},
@@ -64,7 +65,7 @@ func Checks() map[string]*simcore.Check {
 				Stub: []string{"disk: simdisk.SimKV (memorydb with op log, no freezer)", "recording pass-through wrappers around Processor and Validator"},
 			},
 			Perturbed: []string{"interleaving of parallel transaction workers, root goroutine and prefetcher (GOMAXPROCS 1/2/3/4/8/16 set per run; process start value from checks.json gomaxprocs)", "map iteration order inside geth"},
-			Runs:      map[string]int{"quick": 640, "thorough": 30000},
+			Runs:      map[string]int{"quick": 1600, "thorough": 30000},
 			Gen:       gen33, Decode: decode33, Run: run33, Shrink: shrink33,
 			ProbeNames: []string{"blocks-with-cross-tx-dependency", "failed-txs", "blocks-with-requests", "blocks-with-logs", "code-changes",
 				"rejected-at-body:parallel", "rejected-at-process:parallel", "rejected-at-state:parallel", "rejected-at-state:sequential"},
